@@ -38,4 +38,55 @@ theorem leVal_leBytes (w v : Nat) (h : v < 256 ^ w) : leVal (leBytes w v) = v :=
 
 theorem u32_of_lt (x : Nat) (h : x < 4294967296) : u32 x = x := Nat.mod_eq_of_lt h
 
+
+/-- `n` bytes of memory at `a` -/
+def slice (m : Mem) (a n : Nat) : Bytes := (m.drop a).take n
+
+theorem stored_length (m : Mem) (a : Nat) (bs : Bytes) (h : a + bs.length ≤ m.length) :
+    (m.take a ++ bs ++ m.drop (a + bs.length)).length = m.length := by
+  simp; omega
+
+theorem stored_getElem?_outside (m : Mem) (a : Nat) (bs : Bytes) (h : a + bs.length ≤ m.length) (k : Nat)
+    (hk : k < a ∨ a + bs.length ≤ k) :
+    (m.take a ++ bs ++ m.drop (a + bs.length))[k]? = m[k]? := by
+  rcases hk with hk | hk
+  · rw [List.append_assoc, List.getElem?_append_left (by simp; omega), List.getElem?_take]
+    simp [hk]
+  · rw [List.getElem?_append_right (by simp; omega), List.getElem?_drop]
+    congr 1
+    simp; omega
+
+theorem slice_stored_disj (m : Mem) (a : Nat) (bs : Bytes) (h : a + bs.length ≤ m.length) (b n : Nat)
+    (hd : a + bs.length ≤ b ∨ b + n ≤ a) :
+    slice (m.take a ++ bs ++ m.drop (a + bs.length)) b n = slice m b n := by
+  unfold slice
+  apply List.ext_getElem?
+  intro j
+  simp only [List.getElem?_take, List.getElem?_drop]
+  by_cases hj : j < n
+  · simp only [hj, if_true]
+    exact stored_getElem?_outside m a bs h (b + j) (by omega)
+  · simp [hj]
+
+theorem slice_stored_same (m : Mem) (a : Nat) (bs : Bytes) (h : a + bs.length ≤ m.length) :
+    slice (m.take a ++ bs ++ m.drop (a + bs.length)) a bs.length = bs := by
+  unfold slice
+  have : (m.take a).length = a := by simp; omega
+  rw [List.append_assoc, List.drop_append_of_le_length (by omega), List.drop_of_length_le (by omega)]
+  simp
+
+theorem split_at_slice (m : Mem) (b n : Nat) (h : b + n ≤ m.length) :
+    m = m.take b ++ slice m b n ++ m.drop (b + n) := by
+  unfold slice
+  rw [List.append_assoc, ← List.drop_drop, List.take_append_drop, List.take_append_drop]
+
+theorem slice_length (m : Mem) (b n : Nat) (h : b + n ≤ m.length) : (slice m b n).length = n := by
+  unfold slice; simp; omega
+
+theorem slice_mid (A M B : Bytes) (a : Nat) (ha : a = A.length) : slice (A ++ M ++ B) a M.length = M := by
+  subst ha
+  unfold slice
+  rw [List.append_assoc, List.drop_left, List.take_left]
+
+
 end W2c2Verif.WasiPath
